@@ -110,7 +110,20 @@ def main():
     fails, disagreements = [], []
     n = 40 if ck.tier == "quick" else 600
     n_model = 6 if ck.tier == "quick" else 50
-    for i, case in enumerate(pool.cases(rng, table, hist, n, noise_share=0.2)):
+    def all_cases():
+        for i, case in enumerate(pool.cases(rng, table, hist, n, noise_share=0.2)):
+            yield case
+            if i % 3 == 0:
+                # segments on record boundaries, some overtaken by later ones: reassembly restores the order, the capture times do not follow it
+                cn = pool.tls_conn(rng, table, hist, idx=1, schedule="records", nrec=rng.choice([3, 6, 10]), reclen=rng.choice([1, 40, 300]))
+                pk = cn.packets
+                for kind in ("late", "late"):
+                    pk2 = capgen.perturb(rng, pk, kind)
+                    pk = pk2 if pk2 is not None else pk
+                cn.packets = pk
+                hist["late-segments"] += 1
+                yield pool.build(rng, [cn], hist)
+    for i, case in enumerate(all_cases()):
         st0, out0 = impl.run(case.capture, case.keylog, [])
         st1, out1 = impl.run(case.capture, case.keylog, ["-a"])
         why = ("run ended with %s / %s" % (st0, st1)) if (st0, st1) != ("ok", "ok") else judge(case, out0, out1)
